@@ -5,7 +5,7 @@ import LyModel.Text.Utf8Lemmas
 set_option linter.unusedSimpArgs false
 set_option linter.unusedVariables false
 namespace LyModel.Yin
-open LyModel LyModel.Utf8 LyModel.Generated LyModel.XmlText
+open LyModel LyModel.Utf8 LyModel.Generated LyModel.XmlText LyModel.XmlLex
 
 /-- what follows a name in printed text: blank, `/`, `>`, `=`, `:` -/
 def termB (b : UInt8) : Bool := b == 32 || b == 47 || b == 62 || b == 61 || b == 58
